@@ -6,7 +6,7 @@
    interleavings of the internal steps, by [vm_compute]; this validates the model, it is not
    the proof) and the number of leaked statements is one the model can end with.
    [spec_holds]: the property's clauses evaluated on what gorm did. *)
-From Verif Require Export Base C14_Model C14_Plumb.
+From Verif Require Export Base C14_Model C14_Plumb C14_Count C14_Quiet.
 
 (* ---- decidable equalities ------------------------------------------------------------ *)
 Definition choice_code (c : choice) : nat :=
@@ -16,7 +16,6 @@ Definition result_code (r : result) : nat :=
   match r with ROk => 0 | RErrPrep => 1 | RErrInvalid => 2 | RErrClosed => 3 | RErrBad => 4
              | RErrOther => 5 | RPanic => 6 | RNilStmt => 7 end.
 Definition result_eqb (a b : result) := result_code a =? result_code b.
-Definition b2n (b : bool) : nat := if b then 1 else 0.
 
 Definition vev_eqb (a b : vev) : bool :=
   match a, b with
@@ -57,6 +56,25 @@ Definition enc_state (s : state) : list nat :=
 Definition key := list nat.
 Definition keq : key -> key -> bool := list_eqb Nat.eqb.
 
+(* [mask]: a case whose input matches a known finding is evaluated twice: once strictly (mask 0,
+   reported under the finding's signature) and once with exactly the finding's outcome tolerated, so
+   that a known finding cannot hide a failure of another clause on the same input.
+   bit 0: "sql: statement is closed" without a Close (close-races-use);
+   bit 1: the panic of a QueryRow whose prepare failed (row-swallows-error);
+   bit 2: a goroutine blocked BETWEEN two operations, in the Commit of its transaction, while another
+          goroutine's execution is with the driver (commit-waits-for-execution: the cache closed a
+          statement the transaction was using; database/sql finishes that Close inside Tx.Commit and
+          needs the connections the statement was prepared on);
+   bit 3: a pool-level use blocked at the call of the statement it was handed while another goroutine's
+          execution is with the driver, a Close having started (close-queues-use: Close's closer is inside
+          Stmt.Close, which waits for that execution; the use queues behind it and then gets the clean
+          error). *)
+Definition tol_closed (mask : nat) : bool := Nat.odd mask.
+Definition tol_rowpanic (mask : nat) : bool := Nat.odd (Nat.div2 mask).
+Definition tol_commit (mask : nat) : bool := Nat.odd (Nat.div2 (Nat.div2 mask)).
+Definition tol_queue (mask : nat) : bool := Nat.odd (Nat.div2 (Nat.div2 (Nat.div2 mask))).
+
+
 (* ---- exploration ---------------------------------------------------------------------- *)
 (* visited set: a trie over the encoded states *)
 Inductive trie := Node (present : bool) (children : list (nat * trie)).
@@ -79,18 +97,21 @@ Fixpoint tadd (k : key) (t : trie) : bool * trie :=
     end
   end.
 
-Definition tau_succs (s : state) : list state :=
-  flat_map (fun t => match stepL s t CNone with Some (s', None) => [s'] | _ => [] end)
-           (seq 0 (length (s_thr s))).
+Definition enc_qstate (q : qstate) : list nat :=
+  enc_list (fun p => [fst p; snd p]) (q_pend q) ++ enc_state (q_s q).
+
+Definition tau_succs (q : qstate) : list qstate :=
+  flat_map (fun t => match stepQ q t CNone with Some (q', None) => [q'] | _ => [] end)
+           (seq 0 (length (s_thr (q_s q)))).
 
 (* accumulator: work list, visited set, visited states *)
-Definition add_new (acc : list state * trie * list state) (x : state) :=
+Definition add_new (acc : list qstate * trie * list qstate) (x : qstate) :=
   let '(todo, seen, all) := acc in
-  let '(found, seen') := tadd (enc_state x) seen in
+  let '(found, seen') := tadd (enc_qstate x) seen in
   if found then acc else (x :: todo, seen', x :: all).
 
 (* all states reachable by internal steps; [fuel] bounds the number of expansions *)
-Fixpoint closure (fuel : nat) (todo : list state) (seen : trie) (all : list state) : option (list state) :=
+Fixpoint closure (fuel : nat) (todo : list qstate) (seen : trie) (all : list qstate) : option (list qstate) :=
   match todo with
   | [] => Some all
   | s :: rest =>
@@ -101,7 +122,7 @@ Fixpoint closure (fuel : nat) (todo : list state) (seen : trie) (all : list stat
     end
   end.
 
-Definition close_set (fuel : nat) (l : list state) : option (list state) :=
+Definition close_set (fuel : nat) (l : list qstate) : option (list qstate) :=
   let '(todo, seen, all) := fold_left add_new l ([], tempty, []) in
   closure fuel todo seen all.
 
@@ -111,23 +132,43 @@ Definition ev_tid_choice (e : vev) : nat * choice :=
   | VPrepRet t ok => (t, if ok then CPrepOk else CPrepFail)
   | VExecRet t o => (t, o)
   end.
-Definition fire (e : vev) (s : state) : list state :=
+Definition fire (e : vev) (q : qstate) : list qstate :=
   let '(t, c) := ev_tid_choice e in
-  match stepL s t c with
-  | Some (s', Some e') => if vev_eqb e e' then [s'] else []
+  match stepQ q t c with
+  | Some (q', Some e') => if vev_eqb e e' then [q'] else []
   | _ => []
   end.
 
+(* a quiet point (pos, stuck): when [pos] events had been recorded the harness found every goroutine
+   of the programs parked (waiting to be started, finished, inside a driver call it holds) or
+   blocked, the blocked ones being [stuck] (ascending).  The model states compatible with it: no
+   program goroutine can move on its own, and the blocked ones are exactly those. *)
+Definition quiet_at (qs : list (nat * list nat)) (pos : nat) : option (list nat) :=
+  match find (fun p => fst p =? pos) qs with Some p => Some (snd p) | None => None end.
+Definition at_quiet (mask n : nat) (qs : list (nat * list nat)) (pos : nat) (cl : list qstate) : list qstate :=
+  match quiet_at qs pos with
+  | Some stuck =>
+    filter (fun q => quiet_on (seq 0 n) q &&
+                     list_eqb Nat.eqb (stuck_on (seq 0 n) q)
+                       (* second evaluation of a commit-waits-for-execution case: the goroutines blocked
+                          between two operations (the model has no Commit) are not compared *)
+                       (if tol_commit mask then filter (fun t => negb (is_idle (t_pc (thr (q_s q) t)))) stuck
+                        else stuck)) cl
+  | None => cl
+  end.
+
 (* the model states compatible with the recorded trace; None = exploration bound hit *)
-Fixpoint follow (fuel : nat) (tr : list vev) (cur : list state) : option (list state) :=
+Fixpoint follow (fuel : nat) (mask n : nat) (qs : list (nat * list nat)) (pos : nat) (tr : list vev)
+         (cur : list qstate) : option (list qstate) :=
   match close_set fuel cur with
   | None => None
-  | Some cl =>
+  | Some cl0 =>
+    let cl := at_quiet mask n qs pos cl0 in
     match tr with
     | [] => Some cl
     | e :: r => match flat_map (fire e) cl with
                 | [] => Some []
-                | nxt => follow fuel r nxt
+                | nxt => follow fuel mask n qs (S pos) r nxt
                 end
     end
   end.
@@ -145,13 +186,15 @@ Record case := mk_case {
   o_wrongrows : nat;      (* operations that returned no error but other rows than without the cache *)
   o_races : nat;          (* data races the Go race detector reported while the case ran *)
   c_plumb : list plumb;   (* session-plumbing observations (C14_Plumb.v); [] for schedule cases *)
-  c_mask : nat            (* known-finding outcomes tolerated in this evaluation (0 = none) *)
+  c_mask : nat;           (* known-finding outcomes tolerated in this evaluation (0 = none) *)
+  c_quiet : list (nat * list nat)
+                          (* quiet points: (number of events recorded so far, goroutines found blocked) *)
 }.
 
 Definition model_agrees (c : case) : bool :=
   negb (o_hang c) && (o_wrongrows c =? 0) && (o_races c =? 0) && forallb plumb_model_agrees (c_plumb c) &&
-  match follow explore_fuel (c_trace c) [init_g (c_guard c) (c_progs c)] with
-  | Some fin => existsb (fun s => all_done s && (length (leaked s) =? o_leaked c)) fin
+  match follow explore_fuel (c_mask c) (length (c_progs c)) (c_quiet c) 0 (c_trace c) [initQ (c_guard c) (c_progs c)] with
+  | Some fin => existsb (fun q => all_done (q_s q) && (length (leaked (q_s q)) =? o_leaked c)) fin
   | None => false
   end.
 
@@ -176,14 +219,6 @@ Record acc := mkA {
 Definition dflt_win := mkW 0 false [] false CNone.
 Definition cur_op (progs : list (list op)) (w : list win) (t : nat) : option op :=
   nth_error (nth t progs []) (w_idx (nth t w dflt_win)).
-
-(* [mask]: a case whose input matches a known finding is evaluated twice: once strictly (mask 0,
-   reported under the finding's signature) and once with exactly the finding's outcome tolerated, so
-   that a known finding cannot hide a failure of another clause on the same input.
-   bit 0: "sql: statement is closed" without a Close (close-races-use);
-   bit 1: the panic of a QueryRow whose prepare failed (row-swallows-error). *)
-Definition tol_closed (mask : nat) : bool := Nat.odd mask.
-Definition tol_rowpanic (mask : nat) : bool := Nat.odd (Nat.div2 mask).
 
 Definition result_allowed (mask : nat) (o : op) (w : win) (closecalled : bool) (r : result) : bool :=
   match o with
@@ -262,17 +297,63 @@ Definition spec_fold (mask : nat) (progs : list (list op)) (tr : list vev) : acc
   fold_left (spec_step mask progs) tr
             (mkA (map (fun _ => dflt_win) progs) false [] [] [] 0 true).
 
-(* "A statement text is prepared at most once per cache generation": over a whole history,
-   Prepare calls for a text <= generations + failed preparations + evictions + upgrades, where
-   an upgrade needs one Tx-level and one pool-level preparation of that text. *)
-Definition texts_of (calls : list (nat * bool)) : list nat := map fst calls.
-Definition count_tx (q : nat) (b : bool) (l : list (nat * bool)) : nat :=
-  length (filter (fun p => (fst p =? q) && Bool.eqb (snd p) b) l).
-Definition count_ok (calls : list (nat * bool)) (fails evicts : list nat) (cuts : nat) : bool :=
-  forallb (fun q => count_calls q calls <=?
-                    1 + cuts + count_nat q fails + count_nat q evicts
-                    + Nat.min (count_tx q true calls) (count_tx q false calls))
-          (texts_of calls).
+(* "no goroutine deadlocks", whatever the order in which the driver completes its calls: at a quiet
+   point a goroutine of the programs may be blocked only in a query/exec/row of a text for which
+   ANOTHER goroutine's Prepare call is with the driver at that moment (it waits for that single
+   preparation).  Reset and Close never wait; nobody waits for an execution -- except, in the second
+   evaluation of a case that matches known finding close-races-use or close-queues-use (a Reset /
+   eviction / Close closes a statement that is in use), a pool-level use while an execution by another
+   goroutine is with the driver (it queues behind the Stmt.Close that waits for that execution). *)
+Record qacc := mkQA {
+  qa_idx : list nat;            (* operations completed, per goroutine *)
+  qa_prep : list (option nat);  (* text of the Prepare call that is with the driver *)
+  qa_exec : list bool;          (* an execution is with the driver *)
+  qa_active : list bool         (* inside an operation *)
+}.
+Definition qa_step (a : qacc) (e : vev) : qacc :=
+  match e with
+  | VStart t => mkQA (qa_idx a) (qa_prep a) (qa_exec a) (upd (qa_active a) t true)
+  | VPrepCall t q _ => mkQA (qa_idx a) (upd (qa_prep a) t (Some q)) (qa_exec a) (qa_active a)
+  | VPrepRet t _ => mkQA (qa_idx a) (upd (qa_prep a) t None) (qa_exec a) (qa_active a)
+  | VExecCall t => mkQA (qa_idx a) (qa_prep a) (upd (qa_exec a) t true) (qa_active a)
+  | VExecRet t _ => mkQA (qa_idx a) (qa_prep a) (upd (qa_exec a) t false) (qa_active a)
+  | VEnd t _ => mkQA (upd (qa_idx a) t (S (nth t (qa_idx a) 0))) (qa_prep a) (qa_exec a) (upd (qa_active a) t false)
+  end.
+Definition qa_op (progs : list (list op)) (a : qacc) (t : nat) : option op :=
+  nth_error (nth t progs []) (nth t (qa_idx a) 0).
+Definition foreign_exec (progs : list (list op)) (a : qacc) (t : nat) : bool :=
+  existsb (fun u => negb (u =? t) && nth u (qa_exec a) false) (seq 0 (length progs)).
+Definition stuck_justified (mask : nat) (progs : list (list op)) (a : qacc) (t : nat) : bool :=
+  if nth t (qa_active a) false then
+    match qa_op progs a t with
+    | Some (OExec q tx _) =>
+      existsb (fun u => negb (u =? t) && option_eqb Nat.eqb (nth u (qa_prep a) None) (Some q))
+              (seq 0 (length progs))
+      || ((tol_closed mask || tol_queue mask) && negb tx && foreign_exec progs a t)
+    | _ => false
+    end
+  else
+    (* between two operations: only the tolerated Commit of a transaction (the operation just
+       finished was inside one) *)
+    tol_commit mask && foreign_exec progs a t &&
+    match nth t (qa_idx a) 0 with
+    | S i => match nth_error (nth t progs []) i with Some (OExec _ true _) => true | _ => false end
+    | 0 => false
+    end.
+Fixpoint quiet_ok (mask : nat) (progs : list (list op)) (qs : list (nat * list nat)) (pos : nat)
+         (tr : list vev) (a : qacc) : bool :=
+  match quiet_at qs pos with
+  | Some stuck => forallb (stuck_justified mask progs a) stuck
+  | None => true
+  end &&
+  match tr with
+  | [] => true
+  | e :: r => quiet_ok mask progs qs (S pos) r (qa_step a e)
+  end.
+Definition no_undue_wait (c : case) : bool :=
+  quiet_ok (c_mask c) (c_progs c) (c_quiet c) 0 (c_trace c)
+           (mkQA (map (fun _ => 0) (c_progs c)) (map (fun _ => None) (c_progs c)) (map (fun _ => false) (c_progs c))
+                 (map (fun _ => false) (c_progs c))).
 
 Definition spec_holds (c : case) : bool :=
   let a := spec_fold (c_mask c) (c_progs c) (c_trace c) in
@@ -282,6 +363,7 @@ Definition spec_holds (c : case) : bool :=
   && count_ok (a_calls a) (a_fails a) (a_evicts a) (a_cuts a)
   && (o_wrongrows c =? 0)
   && (o_leaked c =? 0) && (o_openstmts c =? 0)
-  && (o_races c =? 0) && forallb plumb_spec (c_plumb c).
+  && (o_races c =? 0) && forallb plumb_spec (c_plumb c)
+  && no_undue_wait c.
 
 Definition check_case (c : case) : N := code_of (model_agrees c) (spec_holds c).
